@@ -387,6 +387,16 @@ class Kernel:
                 vals = [n.value]
                 if isinstance(n.value, (ast.List, ast.ListComp)):
                     vals = list(n.value.elts) if isinstance(n.value, ast.List) else [n.value.elt]
+                    if isinstance(n.value, ast.List) and not n.value.elts:
+                        # E0 stores `L = [z for ..]` as `L = []` + a loop of L.append(z): the initial elements are the appended ones
+                        # (only the loop that directly follows the empty-list statement: later appends are the zero PADDING, checked elsewhere)
+                        par = getattr(n, "_parent", None)
+                        sibs = getattr(par, "body", []) if par is not None else []
+                        if n in sibs and sibs.index(n) + 1 < len(sibs) and isinstance(sibs[sibs.index(n) + 1], ast.For):
+                            for c_ in ast.walk(sibs[sibs.index(n) + 1]):
+                                if isinstance(c_, ast.Call) and isinstance(c_.func, ast.Attribute) and c_.func.attr == "append" and \
+                                        unparse(c_.func.value) == n.targets[0].id and c_.args:
+                                    vals.append(c_.args[0])
                 for v in vals:
                     if not isinstance(v, ast.Call):
                         continue
